@@ -149,6 +149,7 @@ func (o outcome) class() string {
 
 // compare: the parallel outcome must equal the sequential one.
 func compare(c *core.Ctx, what string, cfg poolCfg, seq, par outcome, tol float64) {
+	c.Count("outcome-of-the-sequential-run:" + seq.class())
 	if seq.class() != par.class() && (boundaryError(seq.err) || boundaryError(par.err)) {
 		// the maximiser lies on the boundary of the parameter space (all
 		// observations identical with no lower bound on sigma, p = 1, ...):
